@@ -328,7 +328,8 @@ def _stmt_json(s):
     imps = []
     if s.is_import:
         imps = [[i.fullname, i.import_as] for i in ImportStatement(s).imports]
-    return dict(text=s.text.joined, kind=kind, is_import=bool(s.is_import), imports=imps, line=s.startpos.lineno)
+    return dict(text=s.text.joined, kind=kind, is_import=bool(s.is_import), imports=imps, line=s.startpos.lineno,
+                col=s.startpos.colno)
 
 
 def _blocks_json(transformer):
@@ -359,7 +360,9 @@ def block_trace(case):
 
     def output(self, params=None):
         rec["transformers"].append(self)
-        return orig_output(self, params=params)
+        r = orig_output(self, params=params)
+        rec["last_out"] = r.text.joined
+        return r
 
     def scan(codeblock, *a, **kw):
         r = orig_scan(codeblock, *a, **kw)
@@ -386,6 +389,8 @@ def block_trace(case):
     finally:
         I.SourceToSourceFileImportsTransformation.output = orig_output
         I.scan_for_import_issues = orig_scan
+    if "err" not in tr and "last_out" in rec:
+        tr["out_text"] = rec["last_out"]
     if case["tool"] == "reformat":
         if rec["transformers"]:
             t = rec["transformers"][0]
@@ -465,3 +470,52 @@ def file_corpus_cases(limit, rng=None, max_len=80000):
             out.append(dict(text=text, tool=tool, params={}, known=[], mandatory=[], file=f,
                             flags=dict(add_missing=False, remove_unused=(tool == "tidy"), add_mandatory=False)))
     return out
+
+
+# --------------------------------------------------------------------------- text-level correspondence (Blocks + C11 formatter)
+
+def params_json(p):
+    """ImportFormatParams fields in the encoding of the C11 / Compose drivers (defaults as in pyflyby)"""
+    al = p.get("align_imports", True)
+    if al is True or al is False:
+        alj = dict(t="bool", b=al)
+    elif isinstance(al, int):
+        alj = dict(t="col", n=al)
+    else:
+        alj = dict(t="cols", l=list(al))
+    return dict(width=p.get("max_line_length"), align=alj, from_spaces=p.get("from_spaces", 1),
+                hanging=p.get("hanging_indent", "never"), indent=p.get("indent", 4),
+                sep_from=p.get("separate_from_imports", True), align_future=p.get("align_future", False), d2fix=True)
+
+
+def text_requests(case, tr):
+    """requests for Driver/Compose.lean: the model's complete output text"""
+    if "stmts" not in tr or case["tool"] not in ("reformat", "tidy"):
+        return []
+    pj = params_json(case.get("params", {}))
+    if case["tool"] == "reformat":
+        return [dict(op="reformat_text", stmts=tr["stmts"], params=pj)]
+    br = block_requests(case, tr)
+    if not br:
+        return []
+    r = dict(br[0])
+    r["op"] = "tidy_text"
+    r["params"] = pj
+    return [r]
+
+
+def text_compare(case, tr, resps):
+    r = resps[0]
+    if "err" in tr:
+        if "err" in r:
+            return None if r["err"] == tr["err"] else f"impl raised {tr['err']}, model error {r['err']}"
+        return f"impl raised {tr['err']}, model returned text"
+    if "err" in r:
+        return f"model error {r['err']}, impl returned text"
+    if "out_text" not in tr:
+        return None
+    if r["ok"] != tr["out_text"]:
+        a, b = tr["out_text"], r["ok"]
+        i = next((k for k in range(min(len(a), len(b))) if a[k] != b[k]), min(len(a), len(b)))
+        return f"output text differs at offset {i}: impl={a[max(0,i-30):i+40]!r} model={b[max(0,i-30):i+40]!r}"
+    return None
